@@ -1,6 +1,7 @@
 import Proofs.Lemmas.Spline
 import Proofs.Lemmas.SplineExp
 import Proofs.Lemmas.Traj
+import Mathlib.Analysis.SpecialFunctions.Trigonometric.Bounds
 /-!
 # C19 — splines interpolate and are equivariant; APE/RPE are alignment-invariant; geodesic loss
 
@@ -52,11 +53,6 @@ theorem evalAt_knot (N : Nat) (p : Nat → ℝ) (i : Nat) (hi : i < N) : evalAt 
     rw [ht]
     obtain ⟨a, b, c, d⟩ := h_at_one
     rw [a, b, c, d]; ring
-
-theorem timeAt_knot (kk : Nat) (interval : ℝ) (i : Nat) (hk : 0 < kk) : timeAt kk interval (i * kk) = (i : ℝ) := by
-  unfold timeAt
-  rw [Nat.mul_div_cancel _ hk, Nat.mul_mod_left]
-  simp only [k_real, Nat.cast_zero, zero_mul, add_zero]
 
 /-- **Interpolation, on the returned list**: sample `i·k` of `chspline` is the `i`-th input point. -/
 theorem chspline_interpolates (N kk : Nat) (interval : ℝ) (p : Nat → ℝ) (hk : 2 ≤ kk) (i : Nat) (hi : i < N) :
@@ -113,6 +109,19 @@ theorem evalAt_segment (N : Nat) (p : Nat → ℝ) (i : Nat) (hi : i + 1 < N) (v
   unfold evalAt
   simp only [hs, dxAt_real, k_real, div_one, mul_one]
 
+/-- **C¹ joins**: the Hermite segment `t ↦ h00·p₀ + h10·m₀ + h01·p₁ + h11·m₁` has derivative `m₀` at `t = 0` and `m₁`
+at `t = 1`; with `evalAt_segment` and `evalAt_knot`: consecutive segments share the value `pᵢ` *and* the tangent
+`slope N p i` at every interior knot. -/
+theorem hermite_deriv (p0 m0 p1 m1 : ℝ) :
+    HasDerivAt (fun t : ℝ => h00 t * p0 + h10 t * m0 + h01 t * p1 + h11 t * m1) m0 0 ∧
+    HasDerivAt (fun t : ℝ => h00 t * p0 + h10 t * m0 + h01 t * p1 + h11 t * m1) m1 1 := by
+  rw [hermite_cubic]
+  constructor
+  · have := cubic_hasDerivAt p0 m0 (-3 * p0 - 2 * m0 + 3 * p1 - m1) (2 * p0 + m0 - 2 * p1 + m1) 0
+    convert this using 1; ring
+  · have := cubic_hasDerivAt p0 m0 (-3 * p0 - 2 * m0 + 3 * p1 - m1) (2 * p0 + m0 - 2 * p1 + m1) 1
+    convert this using 1; ring
+
 /-! ## bspline -/
 
 /-- **Pose count**: `(N-3)·k + 1` poses. -/
@@ -161,10 +170,6 @@ theorem bsplineEnd_left_equivariant (eps : ℝ) (G : SE3 ℝ) (N : Nat) (P : Nat
     bsplineEnd eps N (fun j => SE3Mul G (P j)) = SE3Mul G (bsplineEnd eps N P) := by
   unfold bsplineEnd
   exact segPose_left_equivariant eps G _ _ _ _ _ _ _ hG (hP _) (hP _) (hP _)
-
-theorem pad_left (G : SE3 ℝ) (N : Nat) (P : Nat → SE3 ℝ) :
-    pad N (fun j => SE3Mul G (P j)) = fun m => SE3Mul G (pad N P m) := by
-  funext m; unfold pad; split_ifs <;> rfl
 
 /-- **Left-equivariance of the whole output** (both `extrapolate` settings, any `N`, `k`, `interval`). -/
 theorem bspline_left_equivariant (eps : ℝ) (G : SE3 ℝ) (N kk : Nat) (interval : ℝ) (ex : Bool) (P : Nat → SE3 ℝ)
@@ -376,6 +381,71 @@ theorem bspline_extrapolate_last (eps : ℝ) (heps : 0 ≤ eps) (N : Nat) (P : N
   refine step.trans (SE3Equiv.of_eq ?_)
   rw [← SE3_mul_assoc _ _ _ h0 (SE3_valid_inv _ h0), SE3_mul_inv _ h0, SE3_one_mul]
 
+/-- the rotation of a pose is in the generic regime of the code's `Log`/`Exp` pair -/
+def GenericRot (eps : ℝ) (D : SE3 ℝ) : Prop :=
+  eps < D.q.vec.norm ∧ eps < |D.q.w| ∧ eps < 2 * |Real.arctan (D.q.vec.norm / D.q.w)|
+
+/-- **`Exp(Log D) ≅ D`** for the modelled functions (valid pose, generic regime) -/
+theorem exp_log_closed (eps : ℝ) (D : SE3 ℝ) (h0 : 0 ≤ eps) (hD : SE3.Valid D) (hg : GenericRot eps D) :
+    SE3Equiv (se3Exp eps (SE3Log eps D)) D := se3Exp_SE3Log eps D h0 hD hg.1 hg.2.1 hg.2.2
+
+/-- **Continuity across segments, no hypothesis about `Exp`/`Log` left**: valid control poses, the relative
+rotation `Pᵢ⁻¹Pᵢ₊₁` in the generic regime, and the next relative motion either in the closed-form branch after
+scaling by 5/6 or a pure translation / identity. -/
+theorem bspline_continuous_closed (eps : ℝ) (heps : 0 ≤ eps) (P : Nat → SE3 ℝ) (i : Nat)
+    (h0 : SE3.Valid (P i)) (h1 : SE3.Valid (P (i + 1)))
+    (hg : GenericRot eps (SE3Mul (SE3Inv (P i)) (P (i + 1))))
+    (hA : eps < (scale (delta eps (P (i + 1)) (P (i + 2))) (5 / 6)).phi.norm
+      ∨ (scale (delta eps (P (i + 1)) (P (i + 2))) (5 / 6)).phi = Vec3.zero) :
+    SE3Equiv (bsplineAt eps P i 1) (bsplineAt eps P (i + 1) 0) := by
+  apply bspline_continuous eps heps P i h0 h1
+  · exact exp_log_closed eps _ heps (SE3_valid_mul _ _ (SE3_valid_inv _ h0) h1) hg
+  · exact se3Exp_valid eps _ heps hA
+
+/-- **`extrapolate=True`, last pose, no hypothesis about `Exp`/`Log` left** (generic regime of the last relative rotation) -/
+theorem bspline_extrapolate_last_closed (eps : ℝ) (heps : 0 ≤ eps) (N : Nat) (P : Nat → SE3 ℝ) (hN : 2 ≤ N)
+    (h0 : SE3.Valid (P (N - 2))) (h1 : SE3.Valid (P (N - 1)))
+    (hg : GenericRot eps (SE3Mul (SE3Inv (P (N - 2))) (P (N - 1)))) :
+    SE3Equiv (bsplineEnd eps (N + 4) (pad N P)) (P (N - 1)) :=
+  bspline_extrapolate_last eps heps N P hN h0 h1
+    (exp_log_closed eps _ heps (SE3_valid_mul _ _ (SE3_valid_inv _ h0) h1) hg)
+
+/-! ### non-vacuity (spline part) -/
+
+/-- the hypotheses of `bsplineAt_const_twist_closed` are satisfiable: `eps = 10⁻³`, `ξ = (τ; φ)` with `‖φ‖ = 1`, `u = 1/2` -/
+example : let eps : ℝ := 1 / 1000
+    let xi : se3 ℝ := ⟨⟨1, 2, 3⟩, ⟨1, 0, 0⟩⟩
+    eps < xi.phi.norm ∧ xi.phi.norm < Real.pi ∧ eps < Real.sin (xi.phi.norm / 2) ∧ eps < Real.cos (xi.phi.norm / 2)
+      ∧ eps < bw1 (1 / 2) * xi.phi.norm ∧ eps < bw2 (1 / 2) * xi.phi.norm ∧ eps < bw3 (1 / 2) * xi.phi.norm := by
+  intro eps xi
+  have hn : xi.phi.norm = 1 := by
+    show Vec3.norm (⟨1, 0, 0⟩ : Vec3 ℝ) = 1
+    unfold Vec3.norm Vec3.normSq; simp
+  rw [hn]
+  have hs := Real.sin_gt_sub_cube (x := (1 : ℝ) / 2) (by norm_num)
+  have hc := Real.one_sub_sq_div_two_le_cos (x := (1 : ℝ) / 2)
+  have hpi := Real.two_le_pi
+  refine ⟨by norm_num [eps], by linarith, by norm_num [eps] at hs ⊢; linarith, by norm_num [eps] at hc ⊢; linarith, ?_, ?_, ?_⟩ <;>
+    (simp only [bw1, bw2, bw3, k_real, q_real, eps]; norm_num)
+/-- `GenericRot` is satisfiable with a positive threshold: `q = (0.6, 0, 0, 0.8)`, `eps = arctan(3/4)/4` -/
+example : 0 < Real.arctan (3 / 4) / 4 ∧ GenericRot (Real.arctan (3 / 4) / 4) ⟨⟨1, 2, 3⟩, ⟨0.6, 0, 0, 0.8⟩⟩ := by
+  have hn : Vec3.norm (⟨0.6, 0, 0⟩ : Vec3 ℝ) = 0.6 := by
+    unfold Vec3.norm Vec3.normSq
+    simp only [sqrt_real]
+    rw [show (0.6 : ℝ) * 0.6 + 0 * 0 + 0 * 0 = 0.6 ^ 2 by norm_num]
+    exact Real.sqrt_sq (by norm_num)
+  have hpos : 0 < Real.arctan (3 / 4) := Real.arctan_pos.mpr (by norm_num)
+  have hlt : Real.arctan (3 / 4) < 2 := by
+    have := Real.arctan_lt_pi_div_two (3 / 4)
+    have := Real.pi_le_four
+    linarith
+  refine ⟨by positivity, ?_⟩
+  unfold GenericRot
+  simp only [Quat.vec, hn]
+  have h1 : (0.6 : ℝ) / 0.8 = 3 / 4 := by norm_num
+  rw [h1, abs_of_pos hpos, abs_of_pos (show (0 : ℝ) < 0.8 by norm_num)]
+  refine ⟨by linarith, by linarith, by linarith⟩
+
 end PP.Spline
 
 namespace PP.Traj
@@ -532,18 +602,15 @@ theorem associate_jitter (diff off : ℝ) (rs es : List ℝ) (rp ep : List (SE3 
   have e4 : pick ep (List.range es.length) = ep := by rw [← hep]; exact pick_range ep
   rw [e1, e2, e3, e4]
 
-/-! ## identical trajectories -/
+/-- association only looks at the stamps: mapping the poses commutes with it -/
+theorem associate_map (diff off : ℝ) (rs es : List ℝ) (rp ep : List (SE3 ℝ)) (f g : SE3 ℝ → SE3 ℝ) :
+    associate diff off rs (rp.map f) es (ep.map g)
+      = (associate diff off rs rp es ep).map fun a => ⟨a.rs, a.rp.map f, a.es, a.ep.map g⟩ := by
+  unfold associate
+  simp only [pick_map]
+  split_ifs <;> rfl
 
-theorem zipWith_self_zero {β : Type} (f : β → β → ℝ) (g : β → β) (l : List β) (h : ∀ x ∈ l, f x (g x) = 0) :
-    ∀ e ∈ List.zipWith f l (l.map g), e = 0 := by
-  induction l with
-  | nil => simp
-  | cons x xs ih =>
-    intro e he
-    simp only [List.map_cons, List.zipWith_cons_cons, List.mem_cons] at he
-    rcases he with rfl | he
-    · exact h x (by simp)
-    · exact ih (fun y hy => h y (by simp [hy])) e he
+/-! ## identical trajectories -/
 
 /-- **APE of identical trajectories is zero** (after association): every error type, and every way of aligning —
 none, first pose, or an `svdstf` that returns the identity transformation on identical point sets (which its
@@ -606,14 +673,6 @@ theorem ape_identical_zero (eps atol : ℝ) (heps : 0 ≤ eps) (hatol : atol ≤
 
 /-! ## alignment invariance of APE -/
 
-theorem zipWith_map_right_congr {β γ : Type} (f : β → γ → ℝ) (g1 g2 g' : γ → γ) (l : List β) (m : List γ)
-    (h : ∀ r e, f r (g2 (g1 e)) = f r (g' e)) :
-    List.zipWith f l ((m.map g1).map g2) = List.zipWith f l (m.map g') := by
-  rw [List.map_map, List.zipWith_map_right, List.zipWith_map_right]
-  congr 1
-  funext r e
-  exact h r e
-
 /-- **APE with `align` (and `scale`) is unchanged by a rigid (similarity) transform of the estimate.**
 `rigid = true` is `align=True, scale=False` (then `S` must have unit scale), `rigid = false` is `scale=True`.
 Hypotheses: the `svdstf` contract (C17: optimal and unique as a transformation) at the two point sets on which
@@ -656,11 +715,67 @@ theorem apeCore_origin_invariant (eps atol : ℝ) (alignFn : List (Vec3 ℝ) →
   intro e _
   exact key e
 
-/-! ## RPE: invariance under left multiplication, zero for identical trajectories -/
+/-- `origin=True` invariance for arbitrary (possibly empty, possibly unequal-length) associated lists -/
+theorem apeCore_origin_invariant_lists (eps atol : ℝ) (alignFn : List (Vec3 ℝ) → List (Vec3 ℝ) → Sim3 ℝ) (et : EType)
+    (G : SE3 ℝ) (rp ep : List (SE3 ℝ)) (hG : SE3.Valid G) (hR : ∀ r ∈ rp, SE3.Valid r) (hE : ∀ e ∈ ep, SE3.Valid e) :
+    apeCore eps atol alignFn et .origin rp (ep.map (SE3Mul G)) = apeCore eps atol alignFn et .origin rp ep := by
+  cases rp with
+  | nil => simp [apeCore]
+  | cons r0 rp =>
+    cases ep with
+    | nil => rfl
+    | cons e0 ep => exact apeCore_origin_invariant eps atol alignFn et G r0 e0 rp ep hG (hR r0 (by simp)) (hE e0 (by simp))
 
-theorem map_alignPose_one (ep : List (SE3 ℝ)) : ep.map (alignPose Sim3one) = ep := by
-  conv_rhs => rw [← List.map_id ep]
-  exact List.map_congr_left (fun e _ => alignPose_one e)
+/-- **`ape(origin=True)` is unchanged by left-multiplying the estimate by a fixed pose** — from the raw inputs
+(any stamps / association outcome). -/
+theorem ape_origin_invariant (eps atol : ℝ) (alignFn : List (Vec3 ℝ) → List (Vec3 ℝ) → Sim3 ℝ) (et : EType)
+    (diff off : ℝ) (G : SE3 ℝ) (hG : SE3.Valid G) (rs es : List ℝ) (rp ep : List (SE3 ℝ))
+    (hR : ∀ p ∈ rp, SE3.Valid p) (hE : ∀ p ∈ ep, SE3.Valid p) :
+    ape eps atol alignFn et diff off .origin rs rp es (ep.map (SE3Mul G))
+      = ape eps atol alignFn et diff off .origin rs rp es ep := by
+  have hmap := associate_map diff off rs es rp ep id (SE3Mul G)
+  simp only [List.map_id] at hmap
+  unfold ape apeErrors
+  rw [hmap]
+  cases h : associate diff off rs rp es ep with
+  | none => rfl
+  | some a =>
+    simp only [Option.map_some]
+    have hboth : a.rp = pick rp (assocIdx diff off rs es).1 ∧ a.ep = pick ep (assocIdx diff off rs es).2 := by
+      unfold associate at h
+      simp only [] at h
+      by_cases hc : (assocIdx diff off rs es).1.isEmpty = true
+      · simp [hc] at h
+      · have hc' : (assocIdx diff off rs es).1.isEmpty = false := by simpa using hc
+        simp only [hc', Bool.false_eq_true, if_false, Option.some.injEq] at h
+        rw [← h]; exact ⟨rfl, rfl⟩
+    obtain ⟨hrp, hep⟩ := hboth
+    rw [apeCore_origin_invariant_lists eps atol alignFn et G a.rp a.ep hG
+      (fun p hp => hR p (mem_pick _ _ p (hrp ▸ hp))) (fun p hp => hE p (mem_pick _ _ p (hep ▸ hp)))]
+
+/-- **`ape(align[, scale])` is unchanged by a rigid (similarity) transform of the estimate** — from the raw inputs.
+The `svdstf` contract is required at the two point sets on which `ape` calls it (the associated translations). -/
+theorem ape_align_invariant (eps atol : ℝ) (alignFn : List (Vec3 ℝ) → List (Vec3 ℝ) → Sim3 ℝ) (et : EType)
+    (diff off : ℝ) (rigid : Bool) (S : Sim3 ℝ) (hS : Sim3.Valid S) (hSr : rigid = true → S.s = 1)
+    (rs es : List ℝ) (rp ep : List (SE3 ℝ))
+    (hc : ∀ a, associate diff off rs rp es ep = some a →
+      AlignOK rigid (alignFn (a.ep.map (·.t)) (a.rp.map (·.t))) (a.ep.map (·.t)) (a.rp.map (·.t)) ∧
+      AlignOK rigid (alignFn ((a.ep.map (·.t)).map (Sim3Act S)) (a.rp.map (·.t)))
+        ((a.ep.map (·.t)).map (Sim3Act S)) (a.rp.map (·.t))) :
+    ape eps atol alignFn et diff off .svd rs rp es (ep.map (alignPose S))
+      = ape eps atol alignFn et diff off .svd rs rp es ep := by
+  have hmap := associate_map diff off rs es rp ep id (alignPose S)
+  simp only [List.map_id] at hmap
+  unfold ape apeErrors
+  rw [hmap]
+  cases h : associate diff off rs rp es ep with
+  | none => rfl
+  | some a =>
+    simp only [Option.map_some]
+    obtain ⟨h1, h2⟩ := hc a h
+    rw [apeCore_align_invariant eps atol alignFn et rigid S a.rp a.ep hS hSr h1 h2]
+
+/-! ## RPE: invariance under left multiplication, zero for identical trajectories -/
 
 /-- **RPE is unchanged by left-multiplying either trajectory (or both, by different poses) by a fixed pose** —
 no alignment; every error type, frame and distance pairing, `all`, `rpair`, any `delta`; all lengths. -/
@@ -708,30 +823,6 @@ theorem rpeCore_left_invariant_origin (eps atol : ℝ) (alignFn : List (Vec3 ℝ
     rcases List.mem_cons.mp he with rfl | he
     · exact he0
     · exact hE e he
-
-theorem pick_map {β γ : Type} (f : β → γ) (xs : List β) (ids : List Nat) :
-    pick (xs.map f) ids = (pick xs ids).map f := by
-  unfold pick
-  induction ids with
-  | nil => rfl
-  | cons i ids ih =>
-    simp only [List.filterMap_cons, List.getElem?_map]
-    cases xs[i]? with
-    | none => simpa using ih
-    | some x => simp only [Option.map_some, List.map_cons]; rw [← ih]; simp [List.getElem?_map]
-
-theorem mem_pick {β : Type} (xs : List β) (ids : List Nat) (x : β) (h : x ∈ pick xs ids) : x ∈ xs := by
-  unfold pick at h
-  obtain ⟨i, _, hi⟩ := List.mem_filterMap.mp h
-  exact List.mem_of_getElem? hi
-
-/-- association only looks at the stamps: mapping the poses commutes with it -/
-theorem associate_map (diff off : ℝ) (rs es : List ℝ) (rp ep : List (SE3 ℝ)) (f g : SE3 ℝ → SE3 ℝ) :
-    associate diff off rs (rp.map f) es (ep.map g)
-      = (associate diff off rs rp es ep).map fun a => ⟨a.rs, a.rp.map f, a.es, a.ep.map g⟩ := by
-  unfold associate
-  simp only [pick_map]
-  split_ifs <;> rfl
 
 /-- **`rpe` is unchanged by left-multiplying either trajectory by a fixed pose** — from the raw inputs (any stamps,
 any association outcome including "nothing matches"), no alignment. -/
@@ -891,5 +982,79 @@ example : ∀ (i : Nat) (hi : i < ([0.001, 1.001] : List ℝ).length),
   intro i hi
   have : i = 0 ∨ i = 1 := by simp at hi; omega
   rcases this with rfl | rfl <;> norm_num [abs_lt]
+
+/-- the `svdstf` contract is satisfiable: three non-collinear points aligned with themselves -/
+example : AlignOK false Sim3one [Vec3.zero, Vec3.e0, Vec3.e1] [Vec3.zero, Vec3.e0, (Vec3.e1 : Vec3 ℝ)] := by
+  have hone : Sim3.Valid (Sim3one : Sim3 ℝ) := ⟨SO3_valid_one, by simp [Sim3one]⟩
+  refine ⟨hone, fun h => by simp at h, ?_, ?_⟩
+  · intro T _ _
+    rw [cost_self_one]; exact cost_nonneg _ _ _
+  · intro T hT _ hc
+    rw [cost_self_one] at hc
+    have h0 := cost_nonneg T [Vec3.zero, Vec3.e0, Vec3.e1] [Vec3.zero, Vec3.e0, (Vec3.e1 : Vec3 ℝ)]
+    have hz : cost T [Vec3.zero, Vec3.e0, Vec3.e1] [Vec3.zero, Vec3.e0, (Vec3.e1 : Vec3 ℝ)] = 0 := le_antisymm hc h0
+    simp only [cost, List.zipWith_cons_cons, List.zipWith_nil_right, List.sum_cons, List.sum_nil, add_zero] at hz
+    have n1 := Vec3.normSq_nonneg ((Sim3Act T Vec3.zero).sub Vec3.zero)
+    have n2 := Vec3.normSq_nonneg ((Sim3Act T Vec3.e0).sub Vec3.e0)
+    have n3 := Vec3.normSq_nonneg ((Sim3Act T Vec3.e1).sub Vec3.e1)
+    have z1 := normSq_eq_zero _ (by linarith : ((Sim3Act T Vec3.zero).sub Vec3.zero).normSq = 0)
+    have z2 := normSq_eq_zero _ (by linarith : ((Sim3Act T Vec3.e0).sub Vec3.e0).normSq = 0)
+    have z3 := normSq_eq_zero _ (by linarith : ((Sim3Act T Vec3.e1).sub Vec3.e1).normSq = 0)
+    obtain ⟨hq, hs⟩ := hT
+    have hq' : T.q.x * T.q.x + T.q.y * T.q.y + T.q.z * T.q.z + T.q.w * T.q.w = 1 := hq
+    have t1 := congrArg Vec3.x z1; have t2 := congrArg Vec3.y z1; have t3 := congrArg Vec3.z z1
+    have a1 := congrArg Vec3.x z2; have a2 := congrArg Vec3.y z2; have a3 := congrArg Vec3.z z2
+    have b1 := congrArg Vec3.x z3; have b2 := congrArg Vec3.y z3; have b3 := congrArg Vec3.z z3
+    simp only [Sim3Act, Vec3.sub, Vec3.add, Vec3.smul, Quat.act, Vec3.cross, Quat.vec, Vec3.zero, Vec3.e0, Vec3.e1,
+      k_real, Nat.cast_zero, Nat.cast_one] at t1 t2 t3 a1 a2 a3 b1 b2 b3
+    ring_nf at t1 t2 t3 a1 a2 a3 b1 b2 b3
+    have hsne : T.s ≠ 0 := ne_of_gt hs
+    set x := T.q.x; set y := T.q.y; set z := T.q.z; set w := T.q.w
+    have e1 : w * z + y * x = 0 := by
+      have : T.s * (w * z + y * x) = 0 := by linarith
+      exact (mul_eq_zero.mp this).resolve_left hsne
+    have e2 : x * z - w * y = 0 := by
+      have : T.s * (x * z - w * y) = 0 := by linarith
+      exact (mul_eq_zero.mp this).resolve_left hsne
+    have hA : T.s * (1 - 2 * y ^ 2 - 2 * z ^ 2) = 1 := by linarith
+    have hB : T.s * (1 - 2 * z ^ 2 - 2 * x ^ 2) = 1 := by linarith
+    have hAeq : 1 - 2 * y ^ 2 - 2 * z ^ 2 = w * w + x * x - y * y - z * z := by rw [← hq']; ring
+    have hN : (1 - 2 * y ^ 2 - 2 * z ^ 2) ^ 2 = 1 := by
+      have id1 : (w * w + x * x - y * y - z * z) ^ 2 + (2 * (w * z + y * x)) ^ 2 + (2 * (x * z - w * y)) ^ 2
+          = (x * x + y * y + z * z + w * w) ^ 2 := by ring
+      rw [e1, e2, hq'] at id1
+      rw [hAeq]; linarith
+    have hApos : 0 < 1 - 2 * y ^ 2 - 2 * z ^ 2 := by
+      by_contra hn
+      have : T.s * (1 - 2 * y ^ 2 - 2 * z ^ 2) ≤ 0 := mul_nonpos_of_nonneg_of_nonpos hs.le (not_lt.mp hn)
+      linarith
+    have hA1 : 1 - 2 * y ^ 2 - 2 * z ^ 2 = 1 := by
+      have : (1 - 2 * y ^ 2 - 2 * z ^ 2 - 1) * (1 - 2 * y ^ 2 - 2 * z ^ 2 + 1) = 0 := by ring_nf; ring_nf at hN; linarith
+      rcases mul_eq_zero.mp this with h | h
+      · linarith
+      · linarith
+    have hs1 : T.s = 1 := by rw [hA1, mul_one] at hA; exact hA
+    have hyz : y ^ 2 + z ^ 2 = 0 := by linarith only [hA1]
+    have hy : y = 0 := by
+      have : y ^ 2 = 0 := le_antisymm (by linarith only [hyz, sq_nonneg z]) (sq_nonneg y)
+      exact pow_eq_zero_iff (by norm_num) |>.mp this
+    have hz0 : z = 0 := by
+      have : z ^ 2 = 0 := le_antisymm (by linarith only [hyz, sq_nonneg y]) (sq_nonneg z)
+      exact pow_eq_zero_iff (by norm_num) |>.mp this
+    have hx : x = 0 := by
+      rw [hs1, hz0] at hB
+      have : x ^ 2 = 0 := by linarith only [hB]
+      exact pow_eq_zero_iff (by norm_num) |>.mp this
+    have hw2 : w * w = 1 := by rw [hx, hy, hz0] at hq'; linarith only [hq']
+    refine ⟨?_, by rw [hs1]; simp [Sim3one], ?_⟩
+    · ext <;> simp [Sim3one, Vec3.zero, t1, t2, t3]
+    · have : w = 1 ∨ w = -1 := by
+        have : (w - 1) * (w + 1) = 0 := by linear_combination hw2
+        rcases mul_eq_zero.mp this with h | h
+        · left; linarith
+        · right; linarith
+      rcases this with h | h
+      · left; ext <;> simp [Sim3one, Quat.one] <;> assumption
+      · right; ext <;> simp [Sim3one, Quat.one, Quat.neg] <;> assumption
 
 end PP.Traj
